@@ -21,7 +21,7 @@ R == Recs[i]
 AsSet(s) == {s[k] : k \in 1..Len(s)}
 SetOfArr(a, rv) ==
   [replicas |-> a[3], slots |-> AsSet(a[4]), policy |-> a[5], strat |-> a[6], part |-> a[9], tmpl |-> a[10], paused |-> a[11],
-   deleting |-> a[12], histLimit |-> a[13], gen |-> a[15], rv |-> rv,
+   deleting |-> a[12], histLimit |-> a[13], gen |-> a[15], rv |-> rv, nclaims |-> Len(a[18]),
    status |-> [obsGen |-> a[16][1], replicas |-> a[16][2], ready |-> a[16][3], current |-> a[16][4], updated |-> a[16][5],
                collisions |-> a[16][6], curRev |-> a[17][1], updRev |-> a[17][2]]]
 PodsOfArr(arr) ==
@@ -32,15 +32,16 @@ PodsOfArr(arr) ==
                         uid |-> IF p[12] THEN 1 ELSE 2]]      \* same incarnation as the API's pod: 1; a stale one: 2
 RevsOfArr(arr) == [k \in 1..Len(arr) |-> [name |-> arr[k][1], tmpl |-> arr[k][2], num |-> arr[k][3], created |-> arr[k][4],
                                            owner |-> arr[k][5], marker |-> arr[k][6], sel |-> arr[k][7], rank |-> arr[k][8]]]
-StOf(x) == [api   |-> [set |-> SetOfArr(x.set, 1), pods |-> PodsOfArr(x.pods), revs |-> RevsOfArr(x.revs), clock |-> 100000],
-            cache |-> [set |-> SetOfArr(x.cset, IF x.rvSame THEN 1 ELSE 0), pods |-> PodsOfArr(x.cpods)]]
+StOf(x) == [api   |-> [set |-> SetOfArr(x.set, 1), pods |-> PodsOfArr(x.pods), revs |-> RevsOfArr(x.revs), pvcs |-> AsSet(x.pvcs), clock |-> 100000],
+            cache |-> [set |-> SetOfArr(x.cset, IF x.rvSame THEN 1 ELSE 0), pods |-> PodsOfArr(x.cpods), pvcs |-> AsSet(x.cpvcs), queued |-> x.queued]]
 
 \* what is compared: everything but the absolute resourceVersion, creation stamps and name ranks
 NoUid(pods) == [o \in DOMAIN pods |-> [pods[o] EXCEPT !.uid = 0]]
 ViewS(s) == [set |-> [s.api.set EXCEPT !.rv = 0], pods |-> NoUid(s.api.pods),
              uidSame |-> [o \in Ords |-> s.cache.pods[o].present => (s.api.pods[o].present /\ s.api.pods[o].uid = s.cache.pods[o].uid)],
              revs |-> {<<s.api.revs[k].name, s.api.revs[k].tmpl, s.api.revs[k].num, s.api.revs[k].owner>> : k \in 1..Len(s.api.revs)},
-             cset |-> [s.cache.set EXCEPT !.rv = 0], cpods |-> NoUid(s.cache.pods), rvSame |-> s.api.set.rv = s.cache.set.rv]
+             cset |-> [s.cache.set EXCEPT !.rv = 0], cpods |-> NoUid(s.cache.pods), rvSame |-> s.api.set.rv = s.cache.set.rv,
+             pvcs |-> s.api.pvcs, cpvcs |-> s.cache.pvcs, queued |-> s.cache.queued]
 
 ActOf(a) == IF a.act = "SetSlots" THEN [a EXCEPT !.slots = AsSet(a.slots)] ELSE a
 \* a reconcile step is judged with the fault positions as recorded with the reconcile (canonical call order)
@@ -63,7 +64,7 @@ StepConf(k) ==
   IF a.act = "Setup" \/ DiedClaimingStep(k) THEN TRUE
   ELSE IF ~Steps[k].enabled THEN ViewS(t) = ViewS(s)
   \* (a cache refresh that brings nothing the model can see is a stuttering step)
-  ELSE IF a.act \in {"SyncSetCache", "SyncPodCache"} /\ ~Guard(s, a) THEN ViewS(t) = ViewS(s)
+  ELSE IF a.act \in {"SyncSetCache", "SyncPodCache", "SyncPvcCache"} /\ ~Guard(s, a) THEN ViewS(t) = ViewS(s)
   ELSE /\ (a.act # "Scramble" => Guard(s, a))
        /\ ViewS(Effect(s, a)) = ViewS(t)
        /\ (a.act = "Reconcile" => Steps[k].res = Sync(SnapS(s, a.faults)).res)
@@ -82,6 +83,27 @@ B_C12 == StatusTruthS(Final)
 B_C03 == \A k \in 1..Len(Steps) : IsRec(k) => NoCollateralStep(Before(k), After(k))
 \* C08: no reconcile of an unchanged template changed the update revision or added a revision
 B_C08 == \A k \in 1..Len(Steps) : IsRec(k) => NoRestartStep(Before(k), After(k), Steps[k].res)
+
+\* C16 end to end: driven by its work queue alone (no resync) the controller reaches the fixed point, and the queue is
+\* empty there; no failed reconcile lost its retry
+\* ... and at every step: any change of the set that reaches the cache enqueues it; a pod event enqueues it exactly when
+\* the pod is (or was) controlled by the set or is an orphan the set selects (PodEventEnq is C16's table for one set)
+B_C16 == /\ (ConvergedS(Final) \/ StuckS(Final))
+         /\ ~Final.cache.queued
+         /\ \A k \in 1..Len(Steps) : IsRec(k) => (Steps[k].res = "err" => Steps[k].state.queued)
+         /\ \A k \in 2..Len(Steps) : (Steps[k].enabled /\ Steps[k].act.act = "SyncSetCache" /\ Before(k).cache.set # Before(k).api.set)
+                                          => After(k).cache.queued
+         /\ \A k \in 2..Len(Steps) : (Steps[k].enabled /\ Steps[k].act.act = "SyncPodCache")
+                                          => After(k).cache.queued = (Before(k).cache.queued
+                                                \/ \E o \in Ords : PodEventEnq(Before(k).cache.pods[o], Before(k).api.pods[o]))
+
+\* C06 (history clause): no step of the behaviour (reconciles, scale-in, scale-out, restarts) removes or replaces a claim -
+\* the claim objects (name and uid) only ever grow; a pod created by a reconcile finds its claim in place
+PvcIds(x) == {<<x.pvcuids[k][1], x.pvcuids[k][2]>> : k \in 1..Len(x.pvcuids)}
+B_C06 == /\ \A k \in 2..Len(Steps) : PvcIds(Steps[k - 1].state) \subseteq PvcIds(Steps[k].state)
+         /\ \A k \in 1..Len(R.tail) : PvcIds(IF k = 1 THEN Steps[Len(Steps)].state ELSE R.tail[k - 1].state) \subseteq PvcIds(R.tail[k].state)
+         /\ \A k \in 1..Len(Steps) : IsRec(k) => ClaimsFirstStep(Before(k), After(k))
+         /\ \A k \in 1..Len(R.tail) : ClaimsFirstStep(StOf(IF k = 1 THEN Steps[Len(Steps)].state ELSE R.tail[k - 1].state), StOf(R.tail[k].state))
 
 \* C18: after a migration no reconcile adds a revision or takes away a pod that is up to date; in the end everything is adopted
 B_C18 == /\ \A k \in 1..Len(Steps) : IsRec(k) => (NoNewRevisionStep(Before(k), After(k)) /\ PodKeptStep(Before(k), After(k)))
